@@ -206,6 +206,44 @@ def utf8_lines(thorough=False):
             out.append('L %s -' % hx(pre + u))
     return out
 
+def decoder_lines(rnd, thorough=False, n_random=3000):
+    """W cases: byte strings given to the decoder alone (embedded NUL included: the decoder is driven by a length).
+    Every candidate of utf8_candidates on its own and between ASCII letters; every scalar value at and around the
+    encoding-length and surrogate boundaries; 4-byte characters with every single payload bit set; random
+    concatenations of well-formed characters with one malformed piece spliced in."""
+    out = []
+    for u in utf8_candidates(thorough):
+        out.append('W %s' % hx(u)); out.append('W %s' % hx(b'a' + u + b'b'))
+    cps = set()
+    for b in (0, 1, 0x7f, 0x80, 0x7ff, 0x800, 0xfff, 0x1000, 0xd7ff, 0xe000, 0xfffd, 0xffff, 0x10000, 0x3ffff, 0x40000, 0xfffff, 0x100000, 0x10ffff):
+        cps.update(c for c in (b - 1, b, b + 1) if 0 <= c <= 0x10ffff and not 0xd800 <= c <= 0xdfff)
+    for k in range(21):
+        cps.add(1 << k); cps.add((1 << k) | 0x10000); cps.add(0x10ffff & ~(1 << k) if k < 16 else 0x10000 | (1 << k) % 0x100000)
+    cps = sorted(c for c in cps if 0 <= c <= 0x10ffff and not 0xd800 <= c <= 0xdfff)
+    for c in cps:
+        out.append('W %s' % hx(chr(c).encode('utf-8')))
+    out.append('W %s' % hx(''.join(chr(c) for c in cps).encode('utf-8')))
+    bad = [b'\x80', b'\xbf', b'\xc0\x80', b'\xc1\xbf', b'\xe0\x9f\xbf', b'\xed\xa0\x80', b'\xed\xbf\xbf', b'\xf0\x8f\xbf\xbf', b'\xf4\x90\x80\x80',
+           b'\xf5\x80\x80\x80', b'\xf8\x88\x80\x80\x80', b'\xfe', b'\xff', b'\xc3', b'\xe2\x82', b'\xf0\x9f\x98', b'\xe2\x28\xa1', b'\xf0\x28\x8c\xbc', b'\xf0\x90\x28\xbc']
+    for x in bad:
+        out.append('W %s' % hx(x)); out.append('W %s' % hx('é€'.encode() + x)); out.append('W %s' % hx(x + b'a'))
+    for _ in range(n_random):
+        k = rnd.randint(1, 12)
+        piece = []
+        for _ in range(k):
+            r = rnd.random()
+            if r < 0.25: c = rnd.randint(0, 0x7f)
+            elif r < 0.5: c = rnd.randint(0x80, 0x7ff)
+            elif r < 0.75:
+                c = rnd.randint(0x800, 0xffff)
+                if 0xd800 <= c <= 0xdfff: c = 0xe000
+            else: c = rnd.randint(0x10000, 0x10ffff)
+            piece.append(chr(c).encode('utf-8'))
+        if rnd.random() < 0.3:
+            piece.insert(rnd.randint(0, len(piece)), rnd.choice(bad))
+        out.append('W %s' % hx(b''.join(piece)))
+    return out
+
 # ------------------------------------------------------------------ whole addresses
 ADDR_ALPHA = [b'a', b'1', b'.', b'@', b'[', b']', b'-', b':', b' ', b'(', b'#', b'A']
 ADDR_ALPHA_Q = [b'a', b'.', b'@', b'"', b'\\', b' ', b'[', b']', b'1', b'\xd0\xb0']
